@@ -41,6 +41,7 @@ static CaseFn mk_c03(const Args &a) {
     int steps = steps_for(a, 30, 100);
     return [=](Ctx &ctx) {
         EngCfg g; g.chk_model = true; g.chk_props = true; g.allow_props = true; g.w_prop = 8; g.steps = steps;
+        g.attribs = ctx.case_no % 3 == 0;   // attribute classes judged through their accessors in a third of the cases
         dispatch(ctx, g);
     };
 }
